@@ -1320,7 +1320,15 @@ Definition step (cfg : config) (fx : fixes) (s : state) (l : label) : state * li
     | [] => (s, [])
     | qn :: rest =>
       let s := s <| autodel := rest |> in
-      let '(s, evs, _) := vhost_delete_queue (negb (fx_delete_checks_first fx)) s qn false false in (s, evs)
+      (* by now the queue that asked for this may be gone and its name taken by another queue, or it may have
+         consumers again: only a queue that is (still) auto-delete and unused is deleted *)
+      match get_queue s qn with
+      | Some qu =>
+        if q_autodel qu
+        then let '(s, evs, _) := vhost_delete_queue (negb (fx_delete_checks_first fx)) s qn true false in (s, evs)
+        else (s, [])
+      | None => (s, [])
+      end
     end
   | LPersistTick =>
     (* msgstorage.persist: a delete cancels a pending add of the same key; adds are written; every add - written or
